@@ -2,6 +2,7 @@
 from .. import rules_flow as RF
 from .. import rules_matlab as RM
 from .. import rules_pybind as RP
+from .. import rules_ids as RI
 
 ID = "C10"
 EXPLANATION = (
@@ -34,4 +35,8 @@ def run(ctx, rep):
     # T10: every placeholder of every template the MATLAB generator fills has a value at that call (KeyError otherwise,
     # on the first input that reaches the template - the fixtures do not reach all of them)
     rep.run(RP.rule_slot_completeness, ctx, rep, "T10", cls="MatlabWrapper", min_sites=60, unused_ok=True)
+    # T11: the routine behind `get.p` is the getter and the one behind `set.p` the setter, whatever the names contain (= C05 I6)
+    rep.run(RI.rule_roles, ctx, rep, "T11")
+    # T12: classdef, collector, clean-up and RTTI entry exist for the same set of classes: one ignore key at every site (= C15 X1)
+    rep.run(RM.rule_one_ignore_key, ctx, rep, "T12")
     rep.run(RF.rule_locals_defined, ctx, rep, "U1", packages=("gtwrap/matlab_wrapper",), min_functions=3)
